@@ -59,3 +59,25 @@ def scenario_wallclock_sites():
             return {"violated": bool(late), "tags_stamped_with_wall_clock": late, "engine_clock": e._tick_time}
     finally:
         tags_impl.time, archiver.time, rec.time = saved
+
+
+def scenario_timer_tags_keep_a_stale_time():
+    """Block Time / Scope Time change their value every tick of a block, by plain assignment: their tick_time stays at an earlier tick"""
+    from openpectus.test.engine.utility_methods import EngineTestRunner
+    from openpectus.test.engine.test_engine import create_test_uod
+    program = "Block: A\n    Mark: x\n    Wait: 0.5s\n    Mark: z\n    End block\nMark: y\n"
+    runner = EngineTestRunner(create_test_uod, program)
+    with runner.run() as instance:
+        instance.start_run()
+        instance.run_until_instruction("Mark", arguments="x")
+        e = instance.engine
+        stale = []
+        prev = {n: (e.tags[n].get_value(), e.tags[n].tick_time) for n in ("Block Time", "Scope Time")}
+        for _ in range(4):
+            instance.run_ticks(1)
+            for n in ("Block Time", "Scope Time"):
+                v, t = e.tags[n].get_value(), e.tags[n].tick_time
+                if v != prev[n][0] and t != e._tick_time:
+                    stale.append({"tag": n, "value": v, "previous_value": prev[n][0], "tag_time": t, "engine_clock_of_the_tick": e._tick_time})
+                prev[n] = (v, t)
+        return {"violated": bool(stale), "stale": stale[:4]}
